@@ -249,6 +249,10 @@ def gen_exhaustive(family, cfgs, bounds, wd, timeout=1800, tail_k=None, seed=1):
             tail = rnd.sample(tail, tail_k)
         if k in prefixes and not tail:
             continue
+        # the sampled operations are run twice, in a seeded order: a refused request must ALSO leave the implementation
+        # where it was, which only a later request reveals; two passes put every sampled pair in both orders
+        rnd.shuffle(tail)
+        tail = tail + tail
         h["ops"] = h["ops"] + tail
         ntail += len(tail)
         kept.append(h)
